@@ -28,7 +28,8 @@ RULE = ("spea2: exhaustive 1-objective/2-objective tiny populations (n<=4, value
         "three-to-five-objective grids of 200-300 individuals with more than 128 distinct fitnesses through the "
         "log-time sort; 430-470 individuals x 495 reference points (5 objectives, p=8), also on associate_to_niche "
         "directly; SPEA2 populations with one objective at 1e16..1e18 next to unit-scale ones, dominated before "
-        "dominator; k in 1..n, both nd back-ends, generator reference "
+        "dominator; individuals are list-based with genomes unrelated to the fitness (equal genomes, different "
+        "fitnesses); NSGA-III fronts with unit-spaced values on a common offset of 1e14..2^50; k in 1..n, both nd back-ends, generator reference "
         "points M=nobj, p in 1..8, scaling none or 1/2, plain and with memory over 3 consecutive calls; "
         "niching/associate/find_intercepts also driven directly on synthetic inputs; refs: every M in 1..6 x p in 1..8 x "
         "scaling in {none,1/2,1/4,3/4,1/3}; qsel: random arrays with duplicates. Non-trivial = distinct case that "
@@ -125,14 +126,23 @@ class Ind(list):
     pass
 
 
-def make_pop(weights, vals):
+def make_pop(weights, vals, geno=None):
+    """individuals are list-based (`==` compares genomes).  geno: genome of each individual; genomes are
+    unrelated to the fitness (noisy / re-evaluated objectives): equal genomes with different fitnesses and
+    different genomes with equal fitnesses both occur.  Identity is what the statement speaks about."""
     F = fit_class(weights)
     pop = []
-    for v in vals:
-        ind = Ind(v)
+    for i, v in enumerate(vals):
+        ind = Ind(v if geno is None else geno[i % len(geno)])
         ind.fitness = F(tuple(float(x) for x in v))
         pop.append(ind)
     return pop
+
+
+def gen_geno(rng, n):
+    """genomes from a small pool (1..3 distinct genomes, or all distinct)"""
+    pool = rng.choice([1, 2, 3, n + 1])
+    return [[rng.randrange(pool), 1] for _ in range(n)]
 
 
 def dominates(a, b):
@@ -471,7 +481,7 @@ def translation_oracle(d, w, vals, k, refs, cap, F, flat):
     t = [trng.choice([-7, -3, -1, 2, 5, 11, 0.5, -2.5]) for _ in w]
     vals2 = [[x + ti for x, ti in zip(v, t)] for v in vals]
     wv2 = [tuple(float(x) * float(Fr(ww)) for x, ww in zip(v, w)) for v in vals2]
-    pop2 = make_pop(w, vals2)
+    pop2 = make_pop(w, vals2, d.get("geno"))
     F2all = numpy.array([[-x for x in wv2[p]] for p in flat], dtype=float)
     shift = F2all - F
     if d.get("shape") in ("asf", "tiny") or not numpy.array_equal(F2all - shift[0], F) or not numpy.array_equal(F + shift[0], F2all):
@@ -500,7 +510,7 @@ def translation_oracle(d, w, vals, k, refs, cap, F, flat):
 
 def eval_spea2(d):
     w, vals, k = d["w"], d["vals"], d["kk"]
-    pop = make_pop(w, vals)
+    pop = make_pop(w, vals, d.get("geno"))
     n = len(pop)
     cap = {}
     code = emo.selSPEA2.__code__
@@ -556,7 +566,7 @@ def eval_nsga3(d):
     imem = None if selector is None else {"best": numpy.full(M, numpy.inf), "worst": numpy.full(M, -numpy.inf),
                                           "extreme": None}
     for vals, k in zip(pops, ks):
-        pop = make_pop(w, vals)
+        pop = make_pop(w, vals, d.get("geno"))
         wv = [tuple(float(x) * float(Fr(ww)) for x, ww in zip(v, w)) for v in vals]
         with Capture() as cp, NpShuffle(rng) as sh:
             if selector is not None:
@@ -803,7 +813,8 @@ def gen_spea2(rng, nmax=14):
         k = min(n, max(1, nd + rng.choice([-1, 0, 1])))
     else:
         k = rng.randint(1, n)
-    return {"k": "spea2", "w": w, "vals": vals, "kk": k, "shape": shape, "seed": rng.randrange(1 << 30)}
+    return {"k": "spea2", "w": w, "vals": vals, "kk": k, "shape": shape, "seed": rng.randrange(1 << 30),
+            "geno": gen_geno(rng, n)}
 
 
 def front_vals(rng, n, w):
@@ -859,6 +870,8 @@ def gen_nsga3(rng, nmax=14, mem=False, call="kw"):
         shape = "asf"
     elif r0 < 0.46:
         shape = "tiny"          # a front scaled by 2^-23: intercepts around the 1e-6 guard
+    elif r0 < 0.56:
+        shape = "offset"        # unit-spaced values sharing a common offset of 1e14..2^50 (all exact doubles)
 
     def one():
         n = rng.randint(1, nmax)
@@ -876,6 +889,20 @@ def gen_nsga3(rng, nmax=14, mem=False, call="kw"):
         if shape == "asf":
             n = max(n, 3)
             return asf_vals(rng, n, w), rng.randint(1, n)
+        if shape == "offset":
+            n = max(n, 4)
+            offs = [rng.choice([0.0, 1e14, 1e15, 2.0 ** 50, -1e15]) for _ in range(m)]
+            if all(o == 0.0 for o in offs):
+                offs[rng.randrange(m)] = 1e15
+            span = rng.choice([3, 5, 6, 7, 10, 12])
+            pts = []
+            for _ in range(n):
+                cut = sorted(rng.randint(0, span) for _ in range(m - 1))
+                pt = [float(b - a) for a, b in zip([0] + cut, cut + [span])]
+                if rng.random() < 0.3:
+                    pt = [x + rng.randint(0, 2) for x in pt]
+                pts.append([x + o for x, o in zip(pt, offs)])
+            return [[float(-Fr(x) / Fr(ww)) for x, ww in zip(pt, w)] for pt in pts], rng.randint(1, n)
         if shape == "tiny":
             n = max(n, 3)
             sc = 2.0 ** -rng.choice([23, 23, 22, 24])
@@ -890,7 +917,7 @@ def gen_nsga3(rng, nmax=14, mem=False, call="kw"):
         d.update(k="nsga3mem", pops=[c[0] for c in calls], kk=[c[1] for c in calls])
     else:
         vals, k = one()
-        d.update(k="nsga3", vals=vals, kk=k, call=call)
+        d.update(k="nsga3", vals=vals, kk=k, call=call, geno=gen_geno(rng, len(vals)))
         if call == "plain":
             d["nd"] = "log"              # the documented default
     return d
@@ -942,7 +969,8 @@ def gen_spea2_absorb(rng):
     wv = [tuple(Fr(x) * Fr(ww) for x, ww in zip(v, w)) for v in vals]
     nd = sum(1 for i in range(n) if not any(dominates(wv[j], wv[i]) for j in range(n)))
     k = min(n, max(1, nd + rng.choice([-1, 0, 0, 1])))
-    return {"k": "spea2", "w": w, "vals": vals, "kk": k, "shape": "absorb", "seed": rng.randrange(1 << 30)}
+    return {"k": "spea2", "w": w, "vals": vals, "kk": k, "shape": "absorb", "seed": rng.randrange(1 << 30),
+            "geno": gen_geno(rng, n)}
 
 
 def gen_wide(rng, direct):
@@ -1129,6 +1157,8 @@ def shrink(d):
             if len(vals) > 1:
                 e = dict(d)
                 e["vals"] = vals[:i] + vals[i + 1:]
+                if d.get("geno") and len(d["geno"]) == len(vals):
+                    e["geno"] = d["geno"][:i] + d["geno"][i + 1:]
                 e["kk"] = max(1, min(d["kk"], len(e["vals"])))
                 yield e
         if d["kk"] > 1:
